@@ -294,6 +294,39 @@ func c17Cases(r *core.Run) []*c17Case {
 			add(c)
 		}
 	}
+	// --- an in-process api.ServiceGenerator handed to gen.Generate: its paths
+	// pass through no transport, so only gen's own handling confines them.
+	// Outcome free for '..' forms; the plain and aliased ones must be written
+	// inside, the core path and its aliases must be reported as a conflict.
+	for _, s := range []struct {
+		path     string
+		free     bool
+		conflict bool
+	}{
+		{"plug/x.go", false, false}, {"/abs/evil.txt", false, false}, {"./a/b.go", false, false}, {"a//b.go", false, false},
+		{"../escape.txt", true, false}, {"a/../../escape.txt", true, false}, {"a/../../../../escape.txt", true, false}, {"a/../b.txt", true, false},
+		{"../out/keep.me", true, false}, {"../other/canary.txt", true, false}, {"..", true, false},
+		{"svc/svc.go", false, true}, {"./svc/svc.go", false, true}, {"svc/../svc/svc.go", true, false},
+	} {
+		for _, more := range []bool{false, true} {
+			c := simple()
+			c.lib = true
+			c.root = "thrift"
+			c.desc = fmt.Sprintf("library gen.Generate with an in-process plugin: path %q (with other files: %v)", s.path, more)
+			files := map[string]string{s.path: "plugin content"}
+			if more {
+				files["aaa/first.go"] = "first"
+				files["zzz/last.go"] = "last"
+			}
+			c.plugins = []c17Plugin{{name: "inproc", files: files}}
+			c.mustFail, c.conflict = s.conflict, s.conflict
+			c.mustOK = !s.free && !s.conflict
+			// without a transport ".." cleans to the output directory itself: like
+			// "." and "" on the command line, that can only fail in the write loop
+			c.writePhase = s.path == ".."
+			add(c)
+		}
+	}
 	for i, c := range cases {
 		c.strace = !r.Quick() || i%4 == 0
 	}
@@ -421,6 +454,9 @@ func runC17(r *core.Run, c *c17Case, ver int32, host, vplugin, vgenlib string) {
 	}
 	args = append(args, c.args...)
 	for _, p := range c.plugins {
+		if c.lib {
+			break
+		}
 		os.Symlink(vplugin, filepath.Join(bin, "thriftrw-plugin-"+p.name))
 		s := pscript{ReplyName: p.name, APIVersion: ver, Features: []int32{1}, Files: p.files}
 		switch p.fail {
@@ -438,6 +474,12 @@ func runC17(r *core.Run, c *c17Case, ver int32, host, vplugin, vgenlib string) {
 	if c.lib {
 		host = vgenlib
 		args = append([]string{out, filepath.Join(parent, c.root), filepath.Join(parent, c.input)}, c.args...)
+		if len(c.plugins) == 1 {
+			b, _ := json.Marshal(c.plugins[0].files)
+			pf := filepath.Join(dir, "ctl", "inproc.json")
+			os.WriteFile(pf, b, 0o644)
+			args = append(args, "plugin="+pf)
+		}
 		r.Add("library_runs", 1)
 	}
 	before := snapshot(parent)
